@@ -318,6 +318,11 @@ class Scenario:
                 cfg.add(gtirb.Edge(s, t, _lbl(typ, cond, direct)))
         if spec.get("entry_point"):
             m.entry_point = self.blocks[spec["entry_point"]]
+        # module-level designators of a code block besides the entry point
+        if spec.get("elf_init"):
+            _auxdata.elf_dynamic_init.set(m, self.blocks[spec["elf_init"]])
+        if spec.get("elf_fini"):
+            _auxdata.elf_dynamic_fini.set(m, self.blocks[spec["elf_fini"]])
         # ---- cfi directives ------------------------------------------------------
         if spec.get("cfi"):
             tbl = _auxdata_offsetmap.cfi_directives.get_or_insert(m)
